@@ -11,6 +11,7 @@ import (
 	"sync"
 	"sync/atomic"
 	"testing"
+	"time"
 
 	"github.com/prometheus/prometheus/internal/verif/vx"
 )
@@ -22,6 +23,7 @@ import (
 func TestVerifC33Race(t *testing.T) {
 	r := vx.Start(t, "C33", "exploration")
 	defer r.Finish()
+	ag_StartWatchdog(r, 90*time.Second)
 	if r.Replay != "" {
 		return
 	}
